@@ -424,6 +424,12 @@ func c19RunReceiver(dir string, size int64, c uint32, resume bool, idxs []uint64
 		return rerr, false, payloads, true
 	}
 	if waitDone {
+		// the sender's "done with this file" record, carrying the number of frames it sent
+		if err := writeFileEnd(ctl, FileEnd{StreamID: key, CRC32: uint32(len(idxs))}); err != nil {
+			a.Close()
+			rerr = <-done
+			return fmt.Errorf("script: %v; receiver: %v", err, rerr), false, nil, false
+		}
 		got := make(chan bool, 1)
 		go func() {
 			for {
